@@ -529,6 +529,11 @@ class _CompressionMiddleware:
                 title="Unsupported Content-Encoding",
                 description=f"Content-Encoding {content_encoding!r} is not supported by this server",
             )
+        if req_enc is Encoding.IDENTITY:
+            # "No transform applied" is not a codec a server can lack or switch
+            # off: the body is read as sent.  Its decoded size is its wire size,
+            # which the request-size cap has already checked.
+            return
         if req_enc not in self._decode:
             raise falcon.HTTPUnsupportedMediaType(
                 title="Unsupported Content-Encoding",
